@@ -213,4 +213,58 @@ example : (loopBounds cBad lsN).2 = none := by decide
 example : (loopBounds cBad lsN).1.err = some .wrongLoopLim := by decide
 example : (loopBounds (({} : Ctx).setBytes (lit "n") (lit "3")) lsN).2 = some (0, 3) := by decide
 
+/-! ### What a body tag merely LEFT in `ctx.Err` is not the loop's error (repair) -/
+
+/-- **A counter loop that ends normally leaves no error behind** — whatever its body did to `ctx.Err` on the way (a
+    modifier that fails in a print tag leaves its error there and is not fatal). Before the repair the loop node
+    returned such a leftover after the last iteration, and a loop AROUND this one ended after one iteration:
+    "nested or successive loops do not disturb one another". Any body `run`, any bounds, any fuel. -/
+theorem cloop_normal_end_clean (run : St → Res) (ls : CLoopSpec) (hop : ∀ v lim, loopAllows ls.condOp v lim ≠ none) :
+    ∀ (f : Nat) (v lim : Int) (n : Nat) (s : St), s.c.err = none →
+      (cloopLoop run ls f v lim n s).abort = false → (cloopLoop run ls f v lim n s).st.c.err = none := by
+  intro f
+  induction f with
+  | zero => intro v lim n s _ h; simp [cloopLoop] at h
+  | succ f ih =>
+    intro v lim n s he h
+    rw [cloopLoop] at h ⊢
+    cases hla : loopAllows ls.condOp v lim with
+    | none => exact absurd hla (hop v lim)
+    | some b =>
+      cases b with
+      | false => simp only [hla]; simpa [Ctx.setStatic, Ctx.set] using he
+      | true =>
+        simp only [hla] at h ⊢
+        generalize sepWrite n ls.sep { s with c := s.c.setStatic ls.cnt (Val.int v) } = rs at h ⊢
+        cases hre : rs.err with
+        | some e => simp [hre] at h
+        | none =>
+          simp only [hre] at h ⊢
+          generalize clrErrIf (decide (n > 0) && !ls.sep.isEmpty) rs.st = rs1 at h ⊢
+          generalize run { rs1 with c := { rs1.c with chQB := true } } = rb0 at h ⊢
+          by_cases hc : (ls.cntOp == Op.inc || ls.cntOp == Op.dec) = true
+          · simp only [hc, if_true] at h ⊢
+            cases hio : iterAfterBody { rb0 with st := { rb0.st with c := { rb0.st.c with chQB := rs1.c.chQB } } } with
+            | abort st => simp [hio] at h
+            | stop st => simp only [hio]
+            | next st =>
+              simp only [hio] at h ⊢
+              exact ih _ _ _ _ rfl h
+          · simp only [hc, Bool.false_eq_true, if_false] at h ⊢
+            cases hio : iterAfterBody { rb0 with st := { rb0.st with c := { rb0.st.c with chQB := rs1.c.chQB } } } with
+            | abort st => simp [hio] at h
+            | stop st => simp [hio] at h
+            | next st => simp [hio] at h
+
+/-- **A range loop over a variable that is not set, without an else branch, renders nothing and leaves no error**:
+    what an earlier tag — or an earlier render on the same context — had left in `ctx.Err` is not this loop's. -/
+theorem rloop_unset_no_else_clean (run : St → Res) (ls : RLoopSpec) (s : St) (name : Bytes) (sub : List Bytes)
+    (hb : indexOf 91 ls.src = none) (hsp : splitDots ls.src = name :: sub) (hv : getVar s.c.vars name = none) :
+    rloopQB run none ls s = ok { s with c := { s.c with err := none } } := by
+  rw [C14.rloopQB_plain run none ls s hb]
+  unfold rloopWith
+  simp only [hsp]
+  have : getVar ({ s with c := { s.c with err := none } } : St).c.vars name = none := hv
+  simp only [this]
+
 end DyntplV.C03N
